@@ -118,8 +118,10 @@ typedef enum {
 /* for the one tool that needs raw transitions */
 struct zrng_s {
 	stamp_t prev, next;
-	signed int offs:24;
-	unsigned int trno:8;
+	/* offsets are well within +/-36h, leave the room to the
+	 * transition number, zones can have more than 255 transitions */
+	signed int offs:18;
+	unsigned int trno:14;
 } __attribute__((packed));
 
 
